@@ -5,7 +5,16 @@ use crate::explore::*;
 use crate::types::Cfg;
 use serde_json::{json, Value};
 
+pub mod c01;
+pub mod c02;
+pub mod c03;
+pub mod c04;
 pub mod c05;
+pub mod c07;
+pub mod c08;
+pub mod c09;
+pub mod c10;
+pub mod logparse;
 
 pub struct WorkerCtx {
     pub tier: String,
